@@ -1007,6 +1007,13 @@ M('C13', 'TwoSiteH.adjoint leaves the combined tensors unconjugated (round-3 see
 """, """        adj.W1 = self.W1.conj().ireplace_labels(['wL*', 'wR*'], ['wL', 'wR'])
 """, 'HEFF-adjoint')
 
+M('C09', 'from_product_mps_covering passes argsort itself (original defect)', MPS,
+  "local_psi.permute_sites(inverse_permutation(argsort))", "local_psi.permute_sites(argsort)",
+  'MPS-permute-direction')
+M('C09', 'permute_sites documents the inverse map (original defect)', MPS,
+  "such that ``psi.permute_sites(perm)[perm[i]] = psi[i]``", "such that ``psi.permute_sites(perm)[i] = psi[perm[i]]``",
+  'MPS-permute-direction')
+
 # ---------------------------------------------------------------- C16 / C19
 M('C16', 'GMRES restart: relative residual norm used for normalisation (round-3 seed b)', KRY,
   """        self.total_error.append([npc.norm(self.rs[-1]) / self.b_norm])
